@@ -19,7 +19,7 @@ RULE = ("generated primitives (interval, circle, sphere, parallelogram in both v
         "parameter dependence, sampler kind)")
 REQUIRED_REACH = ["CircleBoundary.normal", "SphereBoundary.normal", "ParallelogramBoundary.normal", "TriangleBoundary.normal",
                   "IntervalBoundary.normal", "ShapelyBoundary.normal", "UnionBoundaryDomain.normal", "CutBoundaryDomain.normal",
-                  "IntersectionBoundaryDomain.normal"]
+                  "IntersectionBoundaryDomain.normal", "TrimeshBoundary.normal"]
 MIN_NONTRIVIAL = 30
 ASSUMPTIONS = ["triangles are generated with counter-clockwise corners (documented precondition for outward normals)",
                "rows within 4*eps of a corner or of another boundary piece are counted, not judged (step test ambiguous)",
